@@ -375,6 +375,19 @@ fn main() {
             let s = match side { None => "-", Some(true) => "1", Some(false) => "0" };
             for closed in 0..2 { for mask in 0..16 { v.push(format!("c16 param {closed} {mask} - 0 {me} {var} {s} {p}")); } }
         }
+        // boundary values written through each parameter's OWN setting(s): 0 (the documented None/0 semantics),
+        // 1 and the maximum — for the closed-market switches under every closed/flag state
+        for (me, var, side, p) in &rows {
+            let s = match side { None => "-", Some(true) => "1", Some(false) => "0" };
+            let (own, states): (Vec<&str>, Vec<(u8, u8)>) = match expectation(me, var, *side, p) {
+                Some(K(k)) => (vec![k], vec![(0, 0), (1, 0), (0, 4), (1, 4)]),
+                Some(C(c, o)) | Some(OC(c, o)) => (vec![c, o], (0..2u8).flat_map(|c| (0..16u8).map(move |m| (c, m))).collect()),
+                _ => (vec![], vec![]),
+            };
+            for wk in own { for (closed, mask) in &states { for val in ["0", "1", "340282366920938463463374607431768211455"] {
+                v.push(format!("c16 param {closed} {mask} {wk} {val} {me} {var} {s} {p}"));
+            } } }
+        }
         let extra = cli.n.max(200);
         for _ in 0..extra {
             let (me, var, side, p) = r.pick(&rows).clone();
